@@ -46,6 +46,7 @@ def waitq_search(depth, cap=400000):
     import copy
     from usim._core.waitq import HQWaitQueue, SDWaitQueue
     KEYS = (1, 2, 3, 10, 20, 21, 22, float('inf'))
+    ITEM0 = 1000        # items are the integers from 1000 on, keys are smaller (or infinite)
 
     class Ref:
         def __init__(self):
@@ -70,11 +71,37 @@ def waitq_search(depth, cap=400000):
         for k in sorted(ref.d):
             out.append((k, tuple(ren.setdefault(x, len(ren)) for x in ref.d[k])))
         layout = tuple(getattr(qs[0], '_keys', ()))
-        return (tuple(out), layout)
+        # hidden state: whatever else the two real objects carry (a cache, a cursor, a stale reference to a deque that was
+        # handed out) decides their futures as well - every attribute of both objects goes into the key, items renamed
+        hidden = tuple(_walk(_attrs(q), ren) for q in qs[:2])
+        return (tuple(out), layout, hidden)
+
+    def _attrs(q):
+        names = []
+        for klass in type(q).__mro__:
+            sl = klass.__dict__.get('__slots__', ())
+            names += [sl] if isinstance(sl, str) else list(sl)
+        names += list(getattr(q, '__dict__', {}))
+        return [(n, getattr(q, n)) for n in sorted(set(names)) if hasattr(q, n) and n != '__weakref__']
+
+    def _walk(x, ren, depth=0):
+        if isinstance(x, int) and not isinstance(x, bool) and x >= ITEM0:
+            return ('item', ren.setdefault(x, len(ren)))
+        if isinstance(x, (int, float, str, bool, type(None))):
+            return x
+        if depth > 6:
+            return type(x).__name__
+        if isinstance(x, dict):
+            return ('map',) + tuple(sorted(((_walk(k, ren, depth + 1), _walk(v, ren, depth + 1)) for k, v in x.items()), key=repr))
+        if isinstance(x, (set, frozenset)):
+            return ('set',) + tuple(sorted((_walk(v, ren, depth + 1) for v in x), key=repr))
+        if isinstance(x, (list, tuple, collections.deque)):
+            return ('seq',) + tuple(_walk(v, ren, depth + 1) for v in x)
+        return type(x).__name__
 
     start = [HQWaitQueue(), SDWaitQueue(), Ref()]
     seen = {canon(start)}
-    frontier = collections.deque([(start, (), 0)])
+    frontier = collections.deque([(start, (), ITEM0)])
     transitions = 0
     msgs = []
     samples = []
@@ -156,6 +183,12 @@ def corpus(tier, which):
         c01 = _il.import_module('vk.checks.c01')
         frac = [p for p in c01.cases('quick') if '0.9' in repr(p['roots']) or '0.7' in repr(p['roots'])]
         out += frac[::max(1, len(frac) // (120 * div))]
+        # delays below the resolution of the clock value (now + d == now): the activation is queued for the date that is being
+        # drained right now - the one place where the time-keyed queue is asked for the key it handed out last
+        out += [p for p in c01.cases('quick') if p.get('start') in (10 ** 9, 1e9)]
+        out += absorbed_family()
+        out += abandoned_family()
+        out += inexact_pipe_family()[::3]
     _CORPUS[key] = out
     return out
 
@@ -192,6 +225,57 @@ def recycled_family():
     return out
 
 
+def absorbed_family():
+    out = []
+    tiny = 1e-9
+    for st in (10 ** 9, 2.0 ** 53):
+        d = tiny if st == 10 ** 9 else 1
+        for first in ([['D', d]], [['INSTANT'], ['D', d]], [['D', 1 if st == 10 ** 9 else 4], ['D', d]]):
+            for nother in (1, 2, 3):
+                for other in ([['INSTANT'], ['INSTANT']], [['D', d], ['INSTANT']], [['INSTANT'], ['D', d], ['INSTANT']],
+                              [['D', 1 if st == 10 ** 9 else 4], ['INSTANT'], ['INSTANT']]):
+                    for pos in range(nother + 1):
+                        roots = [['o%d' % i, [x for op in other for x in (op, ['PROBE', 'now'])]] for i in range(nother)]
+                        roots.insert(pos, ['a', [x for op in first for x in (op, ['PROBE', 'now'])] + [['INSTANT'], ['PROBE', 'now']]])
+                        out.append({'start': st, '_nops': 40, 'roots': roots})
+    return out
+
+
+def abandoned_family():
+    """comparisons that are abandoned (used in a boolean context only, waited for and woken, given up by an until block) and a
+    later change of the tracked value to something these comparisons cannot be evaluated for: whether an abandoned comparison
+    is still around depends on when garbage dies, so it may have no effect at all"""
+    out = []
+    uses = {'bool': [['BOOL', ['T', 'X', '>', 30]], ['PROBE', 'now']],
+            'wait': [['WAIT', ['T', 'X', '>=', 1]], ['PROBE', 'now']],
+            'waittt': [['WAIT', ['TT', 'X', '>=', 'Y']], ['PROBE', 'now']],
+            'until': [['UNTIL', 'u', ['DELAY', 1], [['WAIT', ['T', 'X', '>', 30]]]], ['PROBE', 'now']],
+            'untilon': [['UNTIL', 'u', ['T', 'X', '>=', 1], [['D', 5]]], ['PROBE', 'now']],
+            'conn': [['WAIT', ['OR', ['T', 'X', '>', 30], ['GE', 1]]], ['PROBE', 'now']]}
+    for names in (('bool',), ('wait',), ('waittt',), ('until',), ('untilon',), ('conn',), ('bool', 'wait'), ('wait', 'until', 'bool')):
+        for newval in (None, 'text', [1]):
+            for gap in (1, 2):
+                kids = [['DO', 'w%d' % i, uses[n]] for i, n in enumerate(names)]
+                kids.append(['DO', 'h', [['D', 1], ['TADD', 'X', 1], ['D', gap], ['TRY', [['TSET', 'X', newval]]], ['PROBE', 'now'],
+                                         ['TRY', [['TSET', 'Y', newval]]], ['PROBE', 'now']]])
+                out.append({'objs': {'X': ['Tracked', 0], 'Y': ['Tracked', 1]}, '_nops': 60, 'roots': [['root', [['SCOPE', 's', kids]]]]})
+    return out
+
+
+def inexact_pipe_family():
+    """congested pipes with three or four concurrent transfers whose limits do not add up exactly in binary floating point: the
+    dates depend on the order in which the limits are added up, so that order must be a function of the program"""
+    import itertools
+    out = []
+    for limits in ((0.1, 0.2, 0.3), (0.1, 0.2, 0.3, 0.7), (0.7, 0.1, 0.3), (1.1, 0.1, 0.2, 0.3)):
+        for perm in list(itertools.permutations(limits))[::(1 if len(limits) == 3 else 5)]:
+            for stagger in (0, 1):
+                kids = [['DO', 'x%d' % i, ([['D', i * stagger]] if i * stagger else []) + [['XFER', 'p', 1 + i, lim], ['PROBE', 'now']]]
+                        for i, lim in enumerate(perm)]
+                out.append({'objs': {'p': ['Pipe', 0.5]}, '_nops': 60, 'roots': [['root', [['SCOPE', 's', kids], ['PROBE', 'now']]]]})
+    return out
+
+
 def sets_family():
     """programs whose behaviour would follow the iteration order of an unordered container if usim used one:
     several waiters on different comparisons of the same tracked values; several volatile children closed together"""
@@ -217,6 +301,7 @@ def sets_family():
                 kids = [['DO', 'f%d' % i, [['D', 1], ['RAISE', t, 'f%d' % i]]] for i, t in enumerate(kids_t)]
                 out.append({'_nops': 30, 'roots': [['root', [['MATCH', [['SCOPE', 's', kids + [['D', 2]]]], list(handler), incl],
                                                              ['PROBE', 'now']]]]})
+    out += inexact_pipe_family()
     for names in (['a', 'b'], ['b', 'a'], ['mem', 'cores', 'disk']):
         amounts = {n: 2 for n in names}
         kids = [['DO', 'u%d' % i, [['BORROW', 'r', {n: 1}, [['D', 1]]], ['PROBE', 'levels', 'r']]] for i, n in enumerate(names)]
